@@ -1,1 +1,253 @@
+//! C02 validity predicate over a token stream, written from the property statement.
 
+use harper_core::{Currency, Punctuation, Token, TokenKind};
+
+#[derive(Debug, Clone)]
+pub struct TokViolation {
+    /// which clause of the statement: bounds | order | zero_width | tiling | shape_word |
+    /// shape_space | shape_number | shape_punct | quote_twin
+    pub clause: &'static str,
+    pub index: usize,
+    pub detail: String,
+}
+
+fn kind_name(k: &TokenKind) -> &'static str {
+    match k {
+        TokenKind::Word(_) => "Word",
+        TokenKind::Punctuation(_) => "Punctuation",
+        TokenKind::Decade => "Decade",
+        TokenKind::Number(_) => "Number",
+        TokenKind::Space(_) => "Space",
+        TokenKind::Newline(_) => "Newline",
+        TokenKind::EmailAddress => "EmailAddress",
+        TokenKind::Url => "Url",
+        TokenKind::Hostname => "Hostname",
+        TokenKind::Unlintable => "Unlintable",
+        TokenKind::ParagraphBreak => "ParagraphBreak",
+        TokenKind::Regexish => "Regexish",
+    }
+}
+
+pub fn kind_label(k: &TokenKind) -> &'static str {
+    kind_name(k)
+}
+
+/// Independent table: which characters may a punctuation token of a given kind consist of.
+fn punct_chars(p: &Punctuation) -> &'static [char] {
+    match p {
+        Punctuation::Ellipsis => &['…'],
+        Punctuation::EnDash => &['–'],
+        Punctuation::EmDash => &['—'],
+        Punctuation::Ampersand => &['&'],
+        Punctuation::Period => &['.'],
+        Punctuation::Bang => &['!'],
+        Punctuation::Question => &['?'],
+        Punctuation::Colon => &[':'],
+        Punctuation::Semicolon => &[';'],
+        Punctuation::Quote(_) => &['"', '“', '”'],
+        Punctuation::Comma => &[',', '、', '，'],
+        Punctuation::Hyphen => &['-'],
+        Punctuation::OpenSquare => &['['],
+        Punctuation::CloseSquare => &[']'],
+        Punctuation::OpenRound => &['('],
+        Punctuation::CloseRound => &[')'],
+        Punctuation::OpenCurly => &['{'],
+        Punctuation::CloseCurly => &['}'],
+        Punctuation::Hash => &['#'],
+        Punctuation::Apostrophe => &['\'', '’'],
+        Punctuation::Percent => &['%'],
+        Punctuation::ForwardSlash => &['/'],
+        Punctuation::Backslash => &['\\'],
+        Punctuation::LessThan => &['<'],
+        Punctuation::GreaterThan => &['>'],
+        Punctuation::Equal => &['='],
+        Punctuation::Star => &['*'],
+        Punctuation::Tilde => &['~'],
+        Punctuation::At => &['@'],
+        Punctuation::Caret => &['^'],
+        Punctuation::Plus => &['+'],
+        Punctuation::Currency(c) => match c {
+            Currency::Dollar => &['$'],
+            Currency::Cent => &['¢'],
+            Currency::Euro => &['€'],
+            Currency::Ruble => &['₽'],
+            Currency::Lira => &['₺'],
+            Currency::Pound => &['£'],
+            Currency::Yen => &['¥'],
+            Currency::Baht => &['฿'],
+            Currency::Won => &['₩'],
+            Currency::Kip => &['₭'],
+        },
+        Punctuation::Pipe => &['|'],
+        Punctuation::Underscore => &['_'],
+    }
+}
+
+fn parse_number_text(text: &[char]) -> Option<f64> {
+    let s: String = text.iter().collect();
+    if s.len() > 2 && s.starts_with("0x") {
+        return u64::from_str_radix(&s[2..], 16).ok().map(|v| v as f64);
+    }
+    // a number token's text must start with a digit (no sign, no "inf"/"nan" words)
+    if !s.starts_with(|c: char| c.is_ascii_digit()) {
+        return None;
+    }
+    s.parse::<f64>().ok()
+}
+
+/// `plain`: the front-end is plain English, so the tokens must tile the text.
+pub fn check_tokens(tokens: &[Token], text: &[char], plain: bool, is_document: bool) -> Vec<TokViolation> {
+    let n = text.len();
+    let mut out = vec![];
+    let mut push = |clause: &'static str, index: usize, detail: String| {
+        out.push(TokViolation {
+            clause,
+            index,
+            detail,
+        })
+    };
+    let mut prev_end: Option<(usize, usize)> = None; // (end, index) of previous non-zero-width token
+    for (i, t) in tokens.iter().enumerate() {
+        let (s, e) = (t.span.start, t.span.end);
+        if s > e || e > n {
+            push(
+                "bounds",
+                i,
+                format!("{} token {}..{} outside text of {} chars", kind_name(&t.kind), s, e, n),
+            );
+            continue;
+        }
+        if s == e {
+            if !matches!(t.kind, TokenKind::ParagraphBreak | TokenKind::Newline(_)) {
+                push(
+                    "zero_width",
+                    i,
+                    format!("zero-width {} token at {}", kind_name(&t.kind), s),
+                );
+            }
+            continue;
+        }
+        if let Some((pe, pi)) = prev_end {
+            if s < pe {
+                push(
+                    "order",
+                    i,
+                    format!(
+                        "{} token {}..{} starts before the end ({}) of the preceding {} token",
+                        kind_name(&t.kind),
+                        s,
+                        e,
+                        pe,
+                        kind_name(&tokens[pi].kind)
+                    ),
+                );
+            } else if plain && s != pe {
+                push(
+                    "tiling",
+                    i,
+                    format!("gap {}..{} before {} token: characters lost", pe, s, kind_name(&t.kind)),
+                );
+            }
+        } else if plain && s != 0 {
+            push("tiling", i, format!("first token starts at {s}, not 0"));
+        }
+        prev_end = Some((e.max(prev_end.map(|p| p.0).unwrap_or(0)), i));
+        let body = &text[s..e];
+        match &t.kind {
+            TokenKind::Word(_) => {
+                if body.iter().any(|c| c.is_whitespace()) {
+                    push(
+                        "shape_word",
+                        i,
+                        format!("word token {:?} contains whitespace", body.iter().collect::<String>()),
+                    );
+                }
+            }
+            TokenKind::Space(_) => {
+                if !body.iter().all(|c| c.is_whitespace()) {
+                    push(
+                        "shape_space",
+                        i,
+                        format!("space token {:?} contains non-blank characters", body.iter().collect::<String>()),
+                    );
+                }
+            }
+            TokenKind::Number(num) => {
+                let mut digits = body;
+                let mut ok = true;
+                if let Some(suffix) = num.suffix {
+                    let want: Vec<char> = suffix.to_chars();
+                    if body.len() < 3
+                        || !body[body.len() - 2..]
+                            .iter()
+                            .zip(&want)
+                            .all(|(a, b)| a.eq_ignore_ascii_case(b))
+                    {
+                        ok = false;
+                    } else {
+                        digits = &body[..body.len() - 2];
+                    }
+                }
+                let parsed = if ok { parse_number_text(digits) } else { None };
+                let matches_value = match parsed {
+                    Some(v) => v == num.value.0 || (v.is_nan() && num.value.0.is_nan()),
+                    None => false,
+                };
+                if !matches_value {
+                    push(
+                        "shape_number",
+                        i,
+                        format!(
+                            "number token {:?} does not denote value {} with suffix {:?}",
+                            body.iter().collect::<String>(),
+                            num.value.0,
+                            num.suffix
+                        ),
+                    );
+                }
+            }
+            TokenKind::Punctuation(p) => {
+                let allowed = punct_chars(p);
+                let ok = match p {
+                    Punctuation::Ellipsis => {
+                        (body.len() == 1 && body[0] == '…')
+                            || (body.len() >= 2 && body.iter().all(|c| *c == '.'))
+                    }
+                    _ => body.len() == 1 && allowed.contains(&body[0]),
+                };
+                if !ok {
+                    push(
+                        "shape_punct",
+                        i,
+                        format!("punctuation token {:?} has text {:?}", p, body.iter().collect::<String>()),
+                    );
+                }
+                if let Punctuation::Quote(q) = p {
+                    if let Some(tw) = q.twin_loc {
+                        let back = tokens.get(tw).and_then(|o| match &o.kind {
+                            TokenKind::Punctuation(Punctuation::Quote(oq)) => Some(oq.twin_loc),
+                            _ => None,
+                        });
+                        if tw == i || back != Some(Some(i)) {
+                            push(
+                                "quote_twin",
+                                i,
+                                format!("quote token #{i} twin_loc={tw} does not point at a quote pointing back (found {back:?})"),
+                            );
+                        }
+                    }
+                }
+            }
+            _ => {}
+        }
+    }
+    if plain && n > 0 {
+        match prev_end {
+            Some((pe, _)) if pe == n => {}
+            Some((pe, _)) => push("tiling", tokens.len(), format!("last token ends at {pe}, text has {n} chars")),
+            None => push("tiling", 0, format!("no token covers any of the {n} chars")),
+        }
+    }
+    let _ = is_document;
+    out
+}
